@@ -115,14 +115,16 @@ def check(sc):
                                                 o["matched"], wap, tot, o["apm"], o["sm"], where), sc)
                 if on_removed and first_seen[oid] >= removed_sel[o["sel"]]:
                     # requested after the removal had been processed: the placement must fail without a fill
-                    if o["status"] != "PENDING" and (o["sm"] != 0 or o["matched"] or not o["complete"]) and "PENDING" in o["status_log"]:
+                    if o["status"] != "PENDING" and (o["sm"] != 0 or any(m_[2] for m_ in o["matched"]) or not o["complete"]) and "PENDING" in o["status_log"]:
                         raise Violation("placed-on-removed-runner", (o["type"], o["status"]),
                                         "order placed on an already removed runner: status %s matched %s at %s" % (o["status"], o["sm"], where), sc)
                     classes.add("placed-after-removal")
                 elif on_removed and "PENDING" in o["status_log"]:
                     # ---- voided in full, whatever state it was in
                     state_before = p["status"] if p is not None else "new"
-                    if o["sm"] != 0 or o["matched"]:
+                    # (a zero-size fragment - the starting-price conversion of a remainder that the void left at 0 - is
+                    #  not a matched amount)
+                    if o["sm"] != 0 or any(m_[2] for m_ in o["matched"]):
                         raise Violation("removed-runner-still-matched", (o["type"], state_before),
                                         "order on removed runner has size_matched %s fragments %s at %s" % (o["sm"], o["matched"], where), sc)
                     if o["type"] == "LIMIT" and o["sr"] != 0:
